@@ -84,6 +84,9 @@ def run(ctx):
     # TRACE: seeded tracks at seeded resolutions
     cases = _notes.seeded_tracks(ctx, "C04", ctx.pick(400, 6000), flags_p=0.4)
     _notes._judge(ctx, cases, "C04", "seeded tracks", max_skip_ratio=0.01)
+    # several instrument sections in one chart, each judged as if it were alone
+    cases = _notes.seeded_multi(ctx, "C04", ctx.pick(150, 2500), flags_p=0.4)
+    _notes._judge_multi(ctx, cases, "C04", "seeded charts with several sections", max_skip_ratio=0.02)
     if ctx.tier == "thorough":
         # bonus: round-half-even(resolution / 3) = (2*resolution + 3) div 6 for EVERY natural resolution (TLAPS)
         ctx.tlaps("ThresholdLemma", "tlaps_ThresholdLemma")
